@@ -10,6 +10,7 @@ import GldapModel.Directory.Store
 import GldapModel.Spec.ClientEncode
 import GldapModel.Gldap.Session
 import GldapModel.Directory.BindSession
+import GldapModel.Directory.StoreSession
 import Driver.ServerReplay
 import GldapModel.Gldap.Addr
 /-! `gmodel`: one line in, one line out. The Go harness feeds the same cases to the real
@@ -509,6 +510,20 @@ def handle (line : String) : String :=
       if run extTrue != run extFalse then "unmodelled" else
       s!"frames={join "," ((run extTrue).1.map hex)}"
     | _, _, _, _ => "bad-input"
+  | ["tddir", a, c, ud, gd, u, gr, ft, inp] =>
+    match (stripPrefix a "anon=").bind parseBool, (stripPrefix c "ctl=").bind parseBool, (stripPrefix ud "userdn=").bind unhex,
+          (stripPrefix gd "groupdn=").bind unhex, (stripPrefix u "users=").bind parseEntries, (stripPrefix gr "groups=").bind parseEntries,
+          (stripPrefix ft "filters=").bind parseFilterTable, (stripPrefix inp "in=").bind unhex with
+    | some a, some c, some ud, some gd, some us, some gs, some ftab, some input =>
+      let dctls : List Control := if c then [.str [49, 46, 50, 46, 51, 46, 52] false [118]] else []
+      let d : Directory.Dir := { store := { users := us, groups := gs, userDN := ud, groupDN := gd }, allowAnon := a, dctls := dctls }
+      let run (ext) : List Bytes × Session.Ending × Directory.Dir :=
+        let env : Env := { ext := ext, decompile := fun n => (ftab.find? (fun e => e.1 == ser n)).bind (·.2) }
+        Directory.dirSession env Generated.refusalTable Generated.guards d (input.length + 1) input
+      if run extTrue != run extFalse then "unmodelled" else
+      let r := run extTrue
+      s!"end={renderEnding r.2.1} frames={join "," (r.1.map hex)} users={join "|" (r.2.2.store.users.map renderEntry)} groups={join "|" (r.2.2.store.groups.map renderEntry)}"
+    | _, _, _, _, _, _, _, _ => "bad-input"
   | ["behera", g, e, c] =>
     match parseOptNat g, parseOptNat e, parseOptNat c with
     | some g, some e, some c => renderOutcome renderControl (newBehera Generated.beheraErrRange g e c)
